@@ -724,6 +724,34 @@ class RdmsOps:
         self.pool.sweep('append', target=t.sid, args=[other.sid], inplace=True)
         self.ctx.behaviour('append', t.op, other.op)
 
+    def op_redo_after_inplace(self, o):
+        """a selection by some descriptor, then a documented in-place operation on the *same* object, then the same selection
+        with the same arguments again: the second result must describe the object as it is now (nothing remembered from
+        before the in-place operation may be used)"""
+        t = self.pick(o, sem_only=True)
+        if t is None:
+            return False
+        sel = ['subset', 'subsample', 'subset_pattern', 'subsample_pattern', 'getitem_list', 'iterate'][o['a'][5] % 6]
+        inpl = ['reorder', 'sort_by_alpha', 'sort_by_list', 'append'][o['a'][4] % 4]
+        # the 'index' descriptor (re-written by sort_by/reorder) and the grouping descriptor are the interesting keys
+        keys = ('uid', 'grp', 'extra', 'pos', 'index')
+        d = t.obj.rdm_descriptors if sel in ('subset', 'subsample') else t.obj.pattern_descriptors
+        avail = [k for k in keys if k in d]
+        want = 'index' if o['flag'] else 'grp'
+        a0 = avail.index(want) if want in avail else o['a'][0]
+        o1 = {**o, 'a': [a0] + list(o['a'][1:])}
+        self._force = t
+        try:
+            if getattr(self, 'op_' + sel)(o1) is False or not t.alive or t.sem is None:
+                return False
+            getattr(self, 'op_' + inpl)({**o, 'a': [o['a'][3]] + list(o['a'][1:]), 'flag': o['flag2']})
+            if not t.alive or t.sem is None:
+                return
+            getattr(self, 'op_' + sel)(o1)
+        finally:
+            self._force = None
+        self.ctx.probe('redo_after_inplace')
+
     def op_relabel(self, o):
         """the user re-assigns the values of a grouping descriptor (a renaming of the groups): every later selection,
         ordering or combination must go by the labels as they are now"""
